@@ -1375,6 +1375,14 @@ func ruleLoopDrivers(r *Run, id, desc string, pick func(fn *ssa.Function) bool, 
 						}
 					}
 				}
+				if outerLoopSite != nil && !rearmed {
+					// the helper creates its own timer on every call (a cancellable sleep): re-created per iteration
+					allInstrs(fn, func(ins ssa.Instruction) {
+						if isCallNamed(ins, "time.NewTimer", "time.AfterFunc") {
+							rearmed = true
+						}
+					})
+				}
 				r.Check(key, !back || rearmed, posOf(p, rc.at), name, fmt.Sprintf("receive from a one-shot time.Timer inside a loop: the branch continues the loop: %v; the timer is re-armed or re-created inside the loop: %v. A one-shot timer fires once; after that the branch is dead and whatever it does periodically never runs again", back, rearmed))
 			}
 		}
